@@ -63,6 +63,7 @@ class Skeleton:
         self.key_is_hash_of_text = False
         self.tmp_has_uuid4 = False
         self.dir_has_version = False
+        self.dump_recursion_guarded = False
         self.compute_seen: List[Tuple[str, str]] = []
         self.compute_state = 0  # 0 not started, 1 inside, 2 over
         self.in_try = False
@@ -351,8 +352,25 @@ class Skeleton:
                 return
             raise ExtractError(f"unknown return in the cache protocol at line {st.lineno}: {src}")
         if isinstance(st, ast.Try):
-            if st.handlers or st.orelse or in_try or in_fin or self.in_try:
+            if st.orelse or in_try or in_fin or self.in_try:
                 raise ExtractError(f"try statement of an unknown shape at line {st.lineno}")
+            for h in st.handlers:
+                # The only handler understood: `except RecursionError: pass` — pickling a model that is nested too deeply
+                # for the pickler is given up, the `finally` part runs and the run returns what it computed (no caching).
+                # `dump` of the Lean model does not raise (models too deep to pickle are outside the model; the oracle
+                # stream `deep-models-separate-processes` decides them), and nothing else in the try raises a
+                # RecursionError (OSError and the injected faults of the rig pass through), so the handler adds no edge
+                # to the model.  It is recorded as Gen.dumpRecursionGuarded.
+                ok = (
+                    isinstance(h.type, ast.Name)
+                    and h.type.id == "RecursionError"
+                    and h.name is None
+                    and all(isinstance(b, ast.Pass) or (isinstance(b, ast.Expr) and isinstance(b.value, ast.Constant)) for b in h.body)
+                    and any(_is_mod_call(n, "pickle", "dump") for b in st.body for n in ast.walk(b))
+                )
+                if not ok:
+                    raise ExtractError(f"exception handler of an unknown shape in the cache protocol at line {h.lineno}: {ast.unparse(h)[:80]}")
+                self.dump_recursion_guarded = True
             self.in_try = True
             self.block(st.body, (guarded, on_hit, True, False))
             self.block(st.finalbody, (guarded, on_hit, False, True))
@@ -683,6 +701,8 @@ def gen_Cache(repo: pathlib.Path) -> str:
         f"def tmpNameHasUuid4 : Bool := {b(sk.tmp_has_uuid4)}",
         "/-- the cache directory name contains the package version -/",
         f"def dirHasVersion : Bool := {b(sk.dir_has_version)}",
+        "/-- a RecursionError of pickle.dump (model nested too deeply for the pickler) is caught: the run gives up caching, not its result -/",
+        f"def dumpRecursionGuarded : Bool := {b(sk.dump_recursion_guarded)}",
     ]
     pair = lambda a: f"({lean_text(a[0])}, {lean_text(a[1])})"  # noqa: E731
     lines += ["", "/-- __getstate__/__setstate__ of intermediate/_types.py (names as code points) -/", "def pickleHooks : List AasVerif.CachePickle.PickleHook := ["]
